@@ -86,7 +86,7 @@ fn main() {
     };
 
     let origin = EdgeId(0);
-    let destination = EdgeId(2);
+    let destination = EdgeId(std::env::var("DEST").ok().and_then(|s| s.parse().ok()).unwrap_or(2));
     let mut failures: Vec<String> = vec![];
 
     for (name, alg) in [
@@ -127,7 +127,7 @@ fn main() {
             }
         }
         for route in result.routes.iter() {
-            if route[0].edge_id != origin {
+            if route.is_empty() || route[0].edge_id != origin {
                 failures.push(format!("{}: edge-oriented route does not start with the origin edge {}: {:?}", name, origin, route.iter().map(|e| e.edge_id.0).collect::<Vec<_>>()));
             }
             let ids: Vec<usize> = route.iter().map(|et| et.edge_id.0).collect();
